@@ -252,7 +252,10 @@ fn nonlocal_value(rng: &mut Rng, cap: &str, pre: &mut Vec<GStmt>) -> (GExpr, &'s
 /// Build the statements that break `rule`. Returns (statements, variant name, needs global).
 fn violation(rule: Rule, rng: &mut Rng, cap: &str) -> (Vec<GStmt>, &'static str, bool) {
     match rule {
-        Rule::UndefinedVariable => match rng.below(12) {
+        Rule::UndefinedVariable => match rng.below(14) {
+            // later elements of a literal are checked even when an earlier one is not local
+            12 => (vec![print_(GExpr::Set(vec![GExpr::scoped(GExpr::cap(cap), "zq_scoped"), GExpr::var("zq_undefined")]))], "set_literal_element_after_scoped_one", false),
+            13 => (vec![var_("zq_m", GExpr::Int(1)), print_(GExpr::List(vec![GExpr::var("zq_m"), GExpr::Int(0), GExpr::var("zq_undefined")]))], "list_literal_element_after_mutable_one", false),
             0 => (vec![print_(GExpr::var("zq_undefined"))], "plain_use", false),
             // every expression position of every statement form is checked
             6 => (vec![s(StmtKind::Node(GVar::u("zq_n"))), s(StmtKind::Edge(GExpr::var("zq_n"), GExpr::var("zq_undefined")))], "edge_sink", false),
@@ -361,7 +364,11 @@ fn violation(rule: Rule, rng: &mut Rng, cap: &str) -> (Vec<GStmt>, &'static str,
         Rule::NullableRegex => {
             let re = *rng.pick(&["a*", "", "(b)?", "x|", "^", "\\b", "a{0,2}"]);
             let body = vec![];
-            if rng.chance(1, 2) {
+            if rng.chance(1, 4) {
+                // a literal subject that the nullable regex happens to cover with non-empty matches
+                let (subject, re2) = *rng.pick(&[("aaa", "a*"), ("abab", "(a)?(b)?"), ("éé", "(é)?"), ("", "x*"), ("bb", "b{0,2}")]);
+                (vec![scan_(GExpr::str(subject), re2, body)], "literal_subject_covered_by_non_empty_matches", false)
+            } else if rng.chance(1, 2) {
                 (vec![scan_(GExpr::str("abc"), re, body)], "only_arm", false)
             } else {
                 (vec![s(StmtKind::Scan(GExpr::str("abc"), vec![GArm { regex: "a".into(), stmts: vec![], loc: Loc::default() }, GArm { regex: re.into(), stmts: vec![], loc: Loc::default() }]))], "second_arm", false)
@@ -396,6 +403,8 @@ fn rule_of(e: &CheckError) -> (Rule, tree_sitter_graph::Location) {
 const VALID_NEIGHBOURS: &[(&str, &str)] = &[
     ("capture_used_only_in_nested_block", "(identifier) @c { if #true { for x in [1] { print @c } } }"),
     ("capture_used_only_as_scope", "(identifier) @c { node @c.n }"),
+    ("capture_used_only_in_later_set_literal_element", "(function_definition name: (identifier) @name) @fun { print { @fun.v, @name } }"),
+    ("capture_used_only_in_later_list_literal_element", "(function_definition name: (identifier) @name) @fun { var m = 1 print [ m, @fun.v, @name ] }"),
     ("capture_used_only_as_scope_of_set_target", "(identifier) @x { var @x.v = 1 }\n(identifier) @y { set @y.v = 2 }"),
     ("capture_used_only_as_scope_of_set_target_in_loop", "(identifier) @x { var @x.v = 1 }\n(identifier) @y { for i in [1, 2] { set @y.v = i } }"),
     ("capture_used_only_as_scope_of_definition", "(identifier) @x { let @x.v = 1 }"),
